@@ -77,7 +77,8 @@ def _load():
                     n = self._get_register(app_id, command.size)
                 except Exception:  # noqa
                     n = None
-                if n is not None and n > MAX_ARRAY:
+                # (and [None] * n overflows CPython's ssize_t for n < -2**63: platform artefact)
+                if n is not None and (n > MAX_ARRAY or n < -(2 ** 62)):
                     raise TooBig()
             self._calls += 1
             return super()._execute_command(subroutine_id, command)
@@ -363,7 +364,9 @@ class Pools:
         return rng.choice(self.addrs) if rng.random() < 0.93 else rng.choice([4, 5, 6])
 
     def ix(self, rng):
-        return self.reg(rng) if rng.random() < 0.7 else _val(rng, wide=False)
+        if rng.random() < 0.7:
+            return self.reg(rng)
+        return rng.randint(0, 6) if rng.random() < 0.7 else _val(rng, wide=False)
 
 
 KINDS = ["set", "set", "set", "lea", "array", "load", "load", "store", "store", "undef", "add", "sub", "addm", "subm",
@@ -447,13 +450,39 @@ def gen_case(rng, max_len=18, fuel=60):
     return dict(cap=rng.choice([0, 1, 2, 3, 5, 13]), fuel=fuel, subs=subs, tag="random")
 
 
+def gen_loop_case(rng, P, free, cap, fuel):
+    """a structured counting loop: for i in range(lo, hi, step): arr[i] = (x op i) mod m, with a
+    randomly chosen exit test (blt/bge/bne/beq + jmp), then ret_arr / ret_reg"""
+    i, n, one, x, m, t, sz = rng.sample(free, 7)
+    A = P.addrs[0]
+    lo, hi = rng.randint(0, 3), rng.randint(0, 9)
+    length = rng.randint(0, 12)
+    op = rng.choice(["addm", "subm", "add", "sub"])
+    pre = [["set", sz, length], ["array", sz, A], ["set", i, lo], ["set", n, hi], ["set", one, 1],
+           ["set", x, _val(rng)], ["set", m, rng.choice([1, 2, 3, 5, 7, 2 ** 31])]]
+    top = len(pre)
+    body = [[op, t, x, i, m] if op.endswith("m") else [op, t, x, i], ["store", t, A, i], ["add", i, i, one]]
+    kind = rng.choice(["blt", "bne", "bge", "beq"])
+    if kind in ("blt", "bne"):
+        tail = [[kind, i, n, top]]
+    else:  # exit when i >= n / i == n, otherwise jump back
+        tail = [[kind, i, n, top + len(body) + 2], ["jmp", top]]
+    post = [["ret_arr", A], ["ret_reg", t], ["undef", A, lo], ["wait_all", A, lo, i]]
+    prog = pre + body + tail + post[:rng.randint(0, 4)]
+    subs = [prog]
+    if rng.random() < 0.3:
+        subs.append([["load", t, A, i], ["ret_reg", t]])
+    return dict(cap=cap, fuel=fuel, subs=subs, tag="aimed:counting-loop")
+
+
 FAULT_TARGETS = ["store-undef-reg", "store-undef-index", "load-undef-entry", "load-missing-array", "load-undef-index",
                  "modulus-zero", "modulus-negative", "modulus-undef", "double-alloc", "free-unallocated",
                  "index-eq-len", "index-gt-len", "store-missing-array", "undef-index-past", "ret-reg-undef",
                  "ret-arr-missing", "qalloc-outside", "qalloc-undef", "qfree-outside", "qfree-undef",
                  "add-undef", "array-undef-size", "wait-all-blocked", "wait-any-empty", "wait-single-missing",
                  "wait-all-missing", "store-after-ret-arr", "redeclare-after-ret-arr", "branch-undef",
-                 "negative-index", "jump-negative", "jump-past-end", "reg-index-16"]
+                 "negative-index", "jump-negative", "jump-past-end", "reg-index-16",
+                 "alloc-free-cycle", "counting-loop"]
 
 
 def gen_fault_case(rng, target, fuel=60):
@@ -507,7 +536,12 @@ def gen_fault_case(rng, target, fuel=60):
         "jump-negative": [["jmp", -rng.randint(1, 30)]],
         "jump-past-end": [["jmp", 200]],
         "reg-index-16": [["set", rng.choice(BANKS) + str(rng.choice([16, 17, 255, -1])), 1]],
+        "alloc-free-cycle": [["set", q, rng.randint(0, cap - 1)]] + [[rng.choice(["qalloc", "qfree"]), q] if rng.random() < 0.25
+                                                                      else [["qalloc", q], ["qfree", q]][k % 2] for k in range(rng.randint(2, 7))],
+        "counting-loop": None,
     }[target]
+    if target == "counting-loop":
+        return gen_loop_case(rng, P, free, cap, fuel)
     filler1 = [gen_instr(rng, P, 0, kind=rng.choice(["set", "add", "sub", "lea", "ret_reg"])) for _ in range(rng.randint(0, 3))]
     filler2 = [gen_instr(rng, P, 0, kind=rng.choice(["set", "add", "sub", "lea", "ret_reg"])) for _ in range(rng.randint(0, 3))]
     prog = pre + filler1 + aim + filler2
